@@ -25,6 +25,9 @@ func DeepHash(v interface{}) string {
 type hasher struct {
 	sb  strings.Builder
 	ids map[uintptr]int
+	// limit > 0: stop descending below this depth (used to order map keys that are pointers
+	// to large graphs without walking those graphs once per key)
+	limit int
 }
 
 var regexpType = reflect.TypeOf((*regexp.Regexp)(nil))
@@ -36,6 +39,10 @@ func (h *hasher) walk(v reflect.Value, depth int) {
 	}
 	if depth > 200 {
 		h.sb.WriteString("<deep>")
+		return
+	}
+	if h.limit > 0 && depth > h.limit {
+		h.sb.WriteString("<cut>")
 		return
 	}
 	switch v.Kind() {
@@ -96,20 +103,52 @@ func (h *hasher) walk(v reflect.Value, depth int) {
 			return
 		}
 		type kv struct {
-			k string
-			v reflect.Value
+			k    string // ordering key
+			key  reflect.Value
+			v    reflect.Value
+			deep bool
 		}
 		var kvs []kv
 		it := v.MapRange()
+		kk := v.Type().Key().Kind()
+		big := kk == reflect.Ptr || kk == reflect.Interface || kk == reflect.Struct
 		for it.Next() {
 			kh := &hasher{ids: map[uintptr]int{}}
-			kh.walk(it.Key(), depth+1)
-			kvs = append(kvs, kv{kh.sb.String(), it.Value()})
+			if big {
+				// keys that lead into large graphs are ordered by what is near them
+				kh.limit = 4
+			}
+			kh.walk(it.Key(), 0)
+			kvs = append(kvs, kv{kh.sb.String(), it.Key(), it.Value(), !big})
 		}
-		sort.Slice(kvs, func(i, j int) bool { return kvs[i].k < kvs[j].k })
+		sort.SliceStable(kvs, func(i, j int) bool { return kvs[i].k < kvs[j].k })
+		if big {
+			// ties between shallow keys are resolved by the full walk of the tied keys only
+			for i := 0; i < len(kvs); {
+				j := i + 1
+				for j < len(kvs) && kvs[j].k == kvs[i].k {
+					j++
+				}
+				if j-i > 1 {
+					for x := i; x < j; x++ {
+						kh := &hasher{ids: map[uintptr]int{}}
+						kh.walk(kvs[x].key, 0)
+						kvs[x].k = kh.sb.String()
+					}
+					sort.SliceStable(kvs[i:j], func(a, b int) bool { return kvs[i+a].k < kvs[i+b].k })
+				}
+				i = j
+			}
+		}
 		h.sb.WriteString("map{")
 		for _, e := range kvs {
-			h.sb.WriteString(e.k + "=>")
+			if e.deep {
+				h.sb.WriteString(e.k)
+			} else {
+				// identity and content of the key through the main walk (visited once)
+				h.walk(e.key, depth+1)
+			}
+			h.sb.WriteString("=>")
 			h.walk(e.v, depth+1)
 			h.sb.WriteString(",")
 		}
